@@ -85,21 +85,26 @@ matches_iff_permutation!(c26_q_matches_3in_1out, 3, 1, 8);
 matches_iff_permutation!(c26_t_matches_3in_3out, 3, 3, 8);
 matches_iff_permutation!(c26_t_matches_4in_2out, 4, 2, 10);
 
-/// Requests whose list lengths differ from the cached plan never match.
-#[kani::proof]
-#[kani::unwind(8)]
-fn c26_q_matches_length_mismatch() {
-    let ci: [u32; 2] = any_small();
-    kani::assume(ci[0] != ci[1]);
-    let plan = CachedPlan::new(&ids(ci), &ids([0u32]), Vec::new());
-    let q: [u32; 3] = any_small();
-    let n: usize = kani::any();
-    kani::assume(n <= 3 && n != 2);
-    let qi = ids(q);
-    assert!(!plan.matches(&qi[..n], &ids([0u32])));
-    kani::cover!(n == 3, "longer request");
-    std::mem::forget(plan);
+/// Requests whose list lengths differ from the cached plan never match
+/// (request lengths concrete per harness).
+macro_rules! length_mismatch {
+    ($name:ident, $n:expr) => {
+        #[kani::proof]
+        #[kani::unwind(8)]
+        fn $name() {
+            let ci: [u32; 2] = any_small();
+            kani::assume(ci[0] != ci[1]);
+            let plan = CachedPlan::new(&ids(ci), &ids([0u32]), Vec::new());
+            let q: [u32; $n] = any_small();
+            kani::cover!(true, "reached");
+            assert!(!plan.matches(&ids(q), &ids([0u32])), "request of a different length matched");
+            assert!(!plan.matches(&ids(ci), &ids([0u32, 1u32])), "request with more outputs matched");
+            std::mem::forget(plan);
+        }
+    };
 }
+length_mismatch!(c26_q_matches_length_mismatch_1, 1);
+length_mismatch!(c26_q_matches_length_mismatch_3, 3);
 
 /// `first_duplicate_by` (the planner's duplicate check) returns Some iff a
 /// duplicate exists, and what it returns is a duplicated element.
